@@ -64,6 +64,8 @@ def run_kernels(ks, gen_report, seed, n_lattice, n_real, driver, custom_gen=None
     meta = []
     import kgen2
     cg_ = dict(kgen2.GENERATORS)
+    import kgen3
+    cg_.update(kgen3.GENERATORS)
     cg_.update(custom_gen or {})
     custom_gen = cg_
     for k in ks:
